@@ -474,3 +474,7 @@ ENGINES = [
     {"name": "meshmc", "path": "engines/meshmc", "serves_properties": ["C01", "C02", "C03", "C04", "C05", "C08", "C09", "C10", "C11", "C12", "C13", "C15", "C16", "C17"],
      "kind_free_text": "explicit-state BFS over operation histories of the real mesh kernels, label-space reference model + brute-force incidence oracle"},
 ]
+
+# per-property thorough budgets where the measured plan needs more than the default 1000 s on 16 cores
+PROPS["C12"]["budget"] = {"thorough": 2400}
+PROPS["C11"]["budget"] = {"thorough": 1500}
